@@ -457,6 +457,34 @@ DoIncrByFloat(c, st) ==
        IF ~cur.ok THEN Res(ERR, st)              \* loose (IncrFloatLoose): never judged
        ELSE LET b == ScoreBytes(cur.q + c.q) IN Res(RBulk(b), Put(st, c.k, Entry("string", b, ExpOf(st, c.k))))
 
+(* SORT key [STORE dst] (no BY / GET / LIMIT / ALPHA / DESC: the parsers know none) [doc]: the elements of a list or   *)
+(* set as numbers, ascending, ties by bytes; an element that is not a number is an error; STORE writes the result as *)
+(* a list to dst (any old value and TTL of dst go; an empty result deletes dst) and answers its length.  Judged when *)
+(* every element is a canonical integer (or some element cannot be a float in any syntax: error); sorted sets and     *)
+(* other float syntaxes are left loose (SortLoose).                                                                    *)
+RECURSIVE SeqOfSet(_)
+SeqOfSet(S) == IF S = {} THEN <<>> ELSE LET x == CHOOSE y \in S : TRUE IN <<x>> \o SeqOfSet(S \ {x})
+SortElems(st, k) == IF ~Has(st, k) THEN <<>> ELSE IF st[k].t = "list" THEN st[k].v
+                    ELSE IF st[k].t = "set" THEN SeqOfSet(st[k].v) ELSE IF st[k].t = "zset" THEN SeqOfSet(DOMAIN st[k].v) ELSE <<>>
+SortLoose(c, st) == Has(st, c.k) /\ (st[c.k].t = "zset" \/ (st[c.k].t \in {"list", "set"} /\
+                       LET es == SortElems(st, c.k) IN (\E i \in DOMAIN es : ~ParseStrict(es[i]).ok) /\ ~(\E i \in DOMAIN es : FloatJunk(es[i]))))
+NumLess(a, b) == LET x == ParseStrict(a).n  y == ParseStrict(b).n IN Less(x, y) \/ (x = y /\ BytesLess(a, b))
+ElemLess(a, b, num) == IF num THEN NumLess(a, b) ELSE BytesLess(a, b)
+RECURSIVE SortBy(_, _, _)
+SortBy(es, I, num) == IF I = {} THEN <<>>
+                      ELSE LET m == CHOOSE i \in I : \A j \in I \ {i} : ElemLess(es[i], es[j], num) \/ (es[i] = es[j] /\ i < j)
+                           IN <<es[m]>> \o SortBy(es, I \ {m}, num)
+SortResult(c, st, sorted) ==
+  IF c.store = "" THEN Res(RArr([i \in DOMAIN sorted |-> RBulk(sorted[i])]), st)
+  ELSE Res(RInt(Len(sorted)), IF sorted = <<>> THEN Drop(st, {c.store}) ELSE Put(st, c.store, Entry("list", sorted, -1)))
+DoSort(c, st) ==
+  IF Has(st, c.k) /\ st[c.k].t \notin {"list", "set", "zset"} THEN Res(WRONGTYPE, st)
+  ELSE LET es == SortElems(st, c.k) IN
+       IF \E i \in DOMAIN es : ~ParseStrict(es[i]).ok THEN Res(ERR, st)       \* (loose cases are never judged)
+       ELSE SortResult(c, st, SortBy(es, DOMAIN es, TRUE))
+(* as built (listed finding sort_is_lexicographic): byte order, never an error *)
+SortAsBuilt(c, st) == SortResult(c, st, SortBy(SortElems(st, c.k), DOMAIN SortElems(st, c.k), FALSE))
+
 (* the command table *)
 DoLive(c, st, now) ==
   CASE c.op = "GET" -> DoGet(c, st)            [] c.op = "SET" -> DoSet(c, st, now)
@@ -493,6 +521,7 @@ DoLive(c, st, now) ==
     [] c.op = "GETEX" -> DoGetEx(c, st, now)   [] c.op = "SPOP" -> DoSpop(c, st)
     [] c.op = "RANDOMKEY" -> DoRandomKey(c, st)
     [] c.op = "INCRBYFLOAT" -> DoIncrByFloat(c, st)
+    [] c.op = "SORT" -> DoSort(c, st)
 
 (* expired keys are invisible before the command runs *)
 Do(c, st, now) == DoLive(c, Live(st, now), now)
@@ -522,6 +551,8 @@ DevAlts(c, st, now) ==
   LET live == Live(st, now) IN
   IF c.op = "GETSET" /\ TypeIs(live, c.k, "string")
   THEN {[id |-> "getset_keeps_ttl", res |-> Res(RBulk(live[c.k].v), Put(live, c.k, Entry("string", c.v, live[c.k].exp)))]}
+  ELSE IF c.op = "SORT" /\ Has(live, c.k) /\ live[c.k].t \in {"list", "set"}
+  THEN {[id |-> "sort_is_lexicographic", res |-> SortAsBuilt(c, live)]}
   ELSE {}
 
 ReadOnlyOps == {"KEYS", "EXPIRETIME", "GET", "STRLEN", "MGET", "GETRANGE", "EXISTS", "TYPE", "PTTL", "TTL", "DBSIZE", "LLEN", "LINDEX", "LRANGE",
